@@ -3,6 +3,7 @@
 import importlib
 import json
 import logging
+import re
 import sys
 
 
@@ -15,6 +16,11 @@ def main():
     mod = importlib.import_module(module)
     sh = Shard()
     getattr(mod, func)(sh, **args)
+    from vlib import contracts
+
+    if contracts._installed:
+        m = re.search(r"c(\d\d)", module)
+        contracts.report(sh, "C" + m.group(1) if m else "C??")
     with open(out, "w") as f:
         json.dump(sh.to_json(), f, default=jsonable)
 
